@@ -14,6 +14,12 @@ Definition spec_obs (h : list api) : list (list (N * N)) := map sort_by_id (srun
     operation (see Core.Model.has_stale). *)
 Definition known_class (h : list api) : N := if has_stale sinit h then 1 else 0.
 
+(** A spec-violating observation counts as the known finding only when the faithful concrete
+    machine (which has the stale-queue behaviour) predicts exactly that observation; a history in
+    the class whose observation ALSO disagrees with the concrete machine is a different defect. *)
 Definition check_case (c : case04) : N :=
   let (h, o) := c in
-  verdict (obs_eqb (conc_obs h) o) (obs_eqb (spec_obs h) o) (known_class h).
+  let corr := obs_eqb (conc_obs h) o in
+  let spec := obs_eqb (spec_obs h) o in
+  if spec then (if corr then 0 else 1)
+  else if corr && negb (known_class h =? 0) then 100 + known_class h else 2.
